@@ -153,21 +153,23 @@ def run(tier, seed):
     if quick:
         _design(ck, wd, "hist", "ValsA", 2, ["double"])
     else:
-        _design(ck, wd, "hist", "ValsB", 2, ["int", "double"], timeout=12000)
-    _design(ck, wd, "cov", "ValsA", 1, ["int", "double"], coverage=True)
+        _design(ck, wd, "hist", "ValsB", 2, ["double"], timeout=12000)
+        _design(ck, wd, "hist-int", "ValsA", 2, ["int"], timeout=6000)
+    _design(ck, wd, "cov", "ValsA", 1, ["double"], coverage=True)
     # 3. implementation traces (plain build with bounds-checked operator[], and ASan + UBSan build)
     exes = [("asan", vc.build_driver("drv_vector", link_lib=False, sanitize=True, extra_flags=DRV_FLAGS)),
             ("plain", vc.build_driver("drv_vector", link_lib=False, extra_flags=DRV_FLAGS))]
     totals = {}
     runs = [("seq", ["--mode", "seq"]),
-            ("exh1", ["--mode", "exh1", "--len", 3 if quick else 4, "--kall", 0 if quick else 1]),
+            ("exh1", ["--mode", "exh1", "--len", 4, "--kall", 0 if quick else 1]),
             ("exh2", ["--mode", "exh2", "--len", 2 if quick else 3]),
             ("random", ["--mode", "random", "--n", 60 if quick else 1500]),
             ("log", ["--mode", "log", "--n", 60 if quick else 1500])]
     if not quick:
-        # every pair of vectors of length <= 4 over {-1,0,1,2} for the set-like / error-protocol calls, int, in slices
-        for i in range(8):
-            runs.append(("exh2set%d" % i, ["--mode", "exh2", "--len", 4, "--types", "int", "--setlike", 1, "--slice", i, "--of", 8]))
+        # every pair of vectors of length <= 4 over {-1,0,2} for the set-like / error-protocol calls, in slices
+        for i in range(4):
+            runs.append(("exh2set%d" % i, ["--mode", "exh2", "--len", 4, "--types", "int,double" if i == 0 else "int", "--setlike", 1, "--vals3", 1,
+                                           "--slice", i, "--of", 4]))
     for name, args in runs:
         traces, rej = _run(ck, exes, name, args, wd, totals)
         if name == "random":
@@ -192,7 +194,7 @@ def run(tier, seed):
                "list operations on every pair of length <= %d (int and double instantiations), seq(from,to,by) over -6..6 x 1..4, "
                "random histories of 15-40 calls on three registers (length <= 64, values -50..50 with ties, mutating calls included), "
                "log-domain reductions on every vector of length <= 3 over {-inf,-1e300,0.5,1e300,+inf} and random pools; "
-               "non-trivial = scenario with at least one library call" % (3 if quick else 4, 2 if quick else 3))
+               "non-trivial = scenario with at least one library call" % (4, 2 if quick else 3))
     ck.distinct = ck.traces
     ck.assumptions = ["TLC 1.8.0; CommunityModules Json", "harness/drv_vector.cpp only encodes observations (exact integers, dyadic numerators, order facts)",
                       "glibc log/exp are monotone and exp(x) <= 1 for x <= 0 (order facts of the log-domain reductions)",
